@@ -270,3 +270,53 @@ def inlined(expr: ast.AST, stmts: Iterable[ast.stmt], keep=(), depth: int = 6) -
             return n
 
     return T(depth).visit(ast_copy(expr))
+
+
+def stale_loop_variable_uses(fn, cfg=None):
+    """[(name, lineno)]: loads of a for-loop's target name that happen after the loop has ended and can still see the value the loop
+    left in it (no re-binding in between).  Names re-bound by a comprehension / lambda around the load are that scope's own variable."""
+    from .cfg import CFG, reaching_defs
+    cfg = cfg or CFG(fn, "stale")
+    out = []
+
+    def own_loads(node, v):
+        res = []
+
+        def walk(n, shadow):
+            if isinstance(n, (ast.ListComp, ast.SetComp, ast.DictComp, ast.GeneratorExp)):
+                bound = {x.id for g in n.generators for x in ast.walk(g.target) if isinstance(x, ast.Name)}
+                shadow = shadow or v in bound
+            elif isinstance(n, ast.Lambda):
+                shadow = shadow or v in {a.arg for a in n.args.args}
+            if isinstance(n, ast.Name) and n.id == v and isinstance(n.ctx, ast.Load) and not shadow:
+                res.append(n)
+            for c in ast.iter_child_nodes(n):
+                walk(c, shadow)
+
+        walk(node, False)
+        return res
+
+    for lp in ast.walk(fn):
+        if not isinstance(lp, ast.For):
+            continue
+        inside = {id(x) for x in ast.walk(lp)}
+        itn = [x for x in cfg.nodes if x.kind == "iter" and x.ast is lp]
+        if not itn:
+            continue
+        for t in ast.walk(lp.target):
+            if not isinstance(t, ast.Name) or t.id == "_":
+                continue
+            v = t.id
+            rd = None
+            for x in cfg.nodes:
+                if x.ast is None or x.kind not in ("stmt", "test", "iter") or id(x.ast) in inside:
+                    continue
+                node = x.ast.iter if x.kind == "iter" else x.ast
+                if isinstance(node, (ast.FunctionDef, ast.ClassDef)):
+                    continue
+                if not own_loads(node, v):
+                    continue
+                rd = rd or reaching_defs(cfg, v)
+                if itn[0].id in rd.get(x.id, ()):
+                    out.append((v, x.lineno))
+    return out
